@@ -6,6 +6,7 @@ import (
 	"fmt"
 	"os"
 	"runtime"
+	"strings"
 	"sync"
 	"sync/atomic"
 	"testing"
@@ -152,7 +153,8 @@ func genPath(alpha []string, maxDepth int) *rapid.Generator[[]string] {
 
 func genOp(t *rapid.T) Op {
 	alphaGlob := []string{"a", "b", "c", "*", "*"}
-	kind := rapid.SampledFrom([]string{"add", "add", "add", "add", "del", "del", "delcond", "walkdel", "handle", "hupdate"}).Draw(t, "kind")
+	kind := rapid.SampledFrom([]string{"add", "add", "add", "add", "del", "del", "delcond", "walkdel", "handle", "hupdate",
+		"add", "add", "add", "add", "del", "del", "delcond", "walkdel", "handle", "hupdate", "qstop", "qstop", "wstop", "wsstop"}).Draw(t, "kind")
 	op := Op{Kind: kind}
 	if kind != "hupdate" && rapid.IntRange(0, 2).Draw(t, "relative") == 0 {
 		// address relative to an existing leaf: k-th leaf, cut c elements, append suffix
@@ -165,6 +167,11 @@ func genOp(t *rapid.T) Op {
 		op.Val = rapid.IntRange(1, 1000).Draw(t, "val")
 	case "del", "delcond", "walkdel":
 		op.Path = genPath(alphaGlob, 5).Draw(t, "pat")
+	case "qstop", "wstop", "wsstop":
+		if kind == "qstop" {
+			op.Path = genPath(alphaGlob, 4).Draw(t, "pat")
+		}
+		op.Val = rapid.IntRange(1, 3).Draw(t, "stop-at")
 	case "handle":
 		op.Path = genPath(randAlphabet, 4).Draw(t, "path")
 		op.H = rapid.IntRange(0, 3).Draw(t, "h")
@@ -188,10 +195,14 @@ func TestC09Random(t *testing.T) {
 	obs := append(append([][]string{}, randObsPaths...), []string{"a", "b", "c", "a"}, []string{"c", "c", "c", "c"})
 	rec.RunRapid(t, func(rt *rapid.T) {
 		sc := genScenario(rt)
-		st, err := runSeq(sc, obs, randPatterns, true)
-		rec.Case(sc, st.nontrivial(), st.labels()...)
+		st, err := runSeqGuarded(sc, obs, randPatterns, true)
+		rec.Case(sc, st.nontrivial(), append(st.labels(), st.labelsExtra()...)...)
 		if err != nil {
-			rt.Fatalf("%s", rec.Fail(sc, "model-mismatch", "%v", err))
+			class := "model-mismatch"
+			if strings.HasPrefix(err.Error(), "blocked:") {
+				class = "blocked-call"
+			}
+			rt.Fatalf("%s", rec.Fail(sc, class, "%v", err))
 		}
 	})
 }
@@ -237,7 +248,7 @@ func replayOne(rf *vstat.ReplayFile) string {
 				return "bad scenario: " + err.Error()
 			}
 			obs := append(append([][]string{}, randObsPaths...), []string{"a", "b", "c", "a"}, []string{"c", "c", "c", "c"})
-			if _, err := runSeq(&sc, obs, randPatterns, true); err != nil {
+			if _, err := runSeqGuarded(&sc, obs, randPatterns, true); err != nil {
 				return err.Error()
 			}
 			return ""
